@@ -5,6 +5,7 @@
 # worker processes. Usage: selftest_determinism.sh [N indices per property] [props...]
 N=${1:-2000}; shift
 PROPS=${@:-C01 C02 C03 C04 C06 C07 C08 C09 C10 C11 C12 C13 C14 C15 C16 C17 C18 C19 C20}
+/verif/check build >/dev/null || exit 2   # never test stale binaries
 cd /verif/sim
 fail=0
 for prof in debug release; do
